@@ -22,6 +22,7 @@ type wrapTier struct {
 	multiGlyph     bool
 	secondary      bool
 	maxWidths      int
+	pairwiseLen    int       // secondary axes are crossed pairwise for texts up to this length
 	secondaryMulti bool      // secondary axes also on structures with a 2-glyph cluster
 	extra          *wrapTier // additional, longer enumeration over a smaller alphabet
 	name           string
@@ -29,10 +30,10 @@ type wrapTier struct {
 
 func wrapTierFor(tier string) *wrapTier {
 	if tier == "thorough" {
-		return &wrapTier{alphabet: wAlphabet, maxLen: 4, maxRuns: 3, multiGlyph: true, secondary: true, secondaryMulti: true, maxWidths: 0, name: "len<=4 over 9 symbols, <=3 runs, full secondary axes",
+		return &wrapTier{alphabet: wAlphabet, maxLen: 4, maxRuns: 3, multiGlyph: true, secondary: true, secondaryMulti: true, pairwiseLen: 3, maxWidths: 0, name: "len<=4 over 9 symbols, <=3 runs, full secondary axes",
 			extra: &wrapTier{alphabet: []rune{'a', ' ', '\n', 0x05D0, 0x0301}, maxLen: 6, maxRuns: 2, multiGlyph: true, secondary: false, maxWidths: 12, name: "len 5..6 over 5 symbols, <=2 runs, primary axes"}}
 	}
-	return &wrapTier{alphabet: wAlphabet, maxLen: 3, maxRuns: 3, multiGlyph: true, secondary: true, maxWidths: 0, name: "len<=3 over 9 symbols, <=3 runs, secondary axes on single-glyph cluster structures",
+	return &wrapTier{alphabet: wAlphabet, maxLen: 3, maxRuns: 3, multiGlyph: true, secondary: true, pairwiseLen: 2, maxWidths: 0, name: "len<=3 over 9 symbols, <=3 runs, secondary axes on single-glyph cluster structures",
 		extra: &wrapTier{alphabet: []rune{'a', ' ', '\n', 0x05D0, 0x0301}, maxLen: 4, maxRuns: 2, multiGlyph: false, secondary: false, maxWidths: 10, name: "len 4 over 5 symbols, <=2 runs, primary axes"}}
 }
 
@@ -226,36 +227,60 @@ func (e *wrapEnv) structure(t []rune, runs []wRun, wt *wrapTier, multi bool) {
 			}
 		}
 	}
+	type axisVal struct {
+		group string
+		mod   func(c *wCase)
+	}
+	var axes []axisVal
 	for trunc := 1; trunc <= 2; trunc++ {
 		for tr := 0; tr < 3; tr++ {
 			for _, cont := range []bool{false, true} {
 				trunc, tr, cont := trunc, tr, cont
-				sec(func(c *wCase) { c.Trunc, c.Truncator, c.Continues = trunc, tr, cont }, true)
+				axes = append(axes, axisVal{"trunc", func(c *wCase) { c.Trunc, c.Truncator, c.Continues = trunc, tr, cont }})
 			}
 		}
 	}
-	sec(func(c *wCase) { c.NoTrim = true }, false)
-	sec(func(c *wCase) { c.Iter = 1 }, false)
+	axes = append(axes, axisVal{"notrim", func(c *wCase) { c.NoTrim = true }})
+	axes = append(axes, axisVal{"iter", func(c *wCase) { c.Iter = 1 }})
 	for seq := 1; seq <= 3; seq++ {
 		seq := seq
-		sec(func(c *wCase) { c.Driver = 1; c.Widths = []int{seq, 0} }, false)
+		axes = append(axes, axisVal{"driver", func(c *wCase) { c.Driver = 1; c.Widths = []int{seq, 0} }})
 	}
-	sec(func(c *wCase) { c.Driver = 1; c.Trunc = 2; c.Truncator = 1; c.Widths = []int{2, 0} }, true)
 	for _, sp := range [][2]int{{4 << 6, 0}, {0, 2 << 6}, {0, -(2 << 6)}, {3 << 6, 3<<6 + 1}} {
 		sp := sp
-		sec(func(c *wCase) { c.WordSp, c.LetterSp = sp[0], sp[1] }, true)
+		axes = append(axes, axisVal{"spacing", func(c *wCase) { c.WordSp, c.LetterSp = sp[0], sp[1] }})
 	}
-	sec(func(c *wCase) { c.LetterSp = 2 << 6; c.Trunc = 1; c.Truncator = 1 }, true)
 	// vertical runs (C02 only): all runs TTB or BTT by progression of the horizontal vector
 	if e.laws.c02 {
-		sec(func(c *wCase) {
+		axes = append(axes, axisVal{"vertical", func(c *wCase) {
 			rs := make([]wRun, len(c.Runs))
 			for i, r := range c.Runs {
 				rs[i] = wRun{Dir: r.Dir + 2, Clusters: r.Clusters}
 			}
 			c.Runs = rs
 			c.PDir += 2
-		}, true)
+		}})
+	}
+	for _, a := range axes {
+		sec(a.mod, true)
+	}
+	// pairwise crossing of the secondary axes (values of different groups), for short texts
+	if len(t) <= wt.pairwiseLen {
+		for i, a := range axes {
+			for _, b := range axes[i+1:] {
+				if a.group == b.group {
+					continue
+				}
+				a, b := a, b
+				sec(func(c *wCase) { a.mod(c); b.mod(c) }, true)
+			}
+		}
+	} else {
+		// always: letter spacing x {trim disabled, truncation, WrapNextLine}
+		sec(func(c *wCase) { c.LetterSp = 2 << 6; c.NoTrim = true }, true)
+		sec(func(c *wCase) { c.LetterSp = 2 << 6; c.Trunc = 1; c.Truncator = 1 }, true)
+		sec(func(c *wCase) { c.LetterSp = 2 << 6; c.Driver = 1; c.Widths = []int{2, 0} }, true)
+		sec(func(c *wCase) { c.Driver = 1; c.Trunc = 2; c.Truncator = 1; c.Widths = []int{2, 0} }, true)
 	}
 }
 
@@ -340,7 +365,7 @@ func wrapBounds() map[string]string {
 
 const wrapRule = "every text over {a,SP,LF,-,U+0301,alef,1,NBSP,ZWSP} up to the tier's length x every split into <=3 runs x every LTR/RTL direction vector x every cluster composition (parts<=3) " +
 	"x {all single-glyph, one 2-glyph cluster at each position} x 3 policies x 2 paragraph directions x every critical width (ceil of every interval sum of advances with/without boundary discounts, truncator-shifted); " +
-	"secondary axes one at a time against policy x direction x width: TruncateAfterLines {1,2} x truncator {empty,7px,1000px} x TextContinues, trim disabled, harness RunIterator, Prepare+WrapNextLine with constant/decreasing/alternating widths, " +
+	"secondary axes one at a time (and pairwise for short texts) against policy x direction x width: TruncateAfterLines {1,2} x truncator {empty,7px,1000px} x TextContinues, trim disabled, harness RunIterator, Prepare+WrapNextLine with constant/decreasing/alternating widths, " +
 	"word/letter spacing {+4,+2,-2,+3/+3.02} applied with AddSpacing, vertical runs (C02). Non-trivial = >=2 lines or truncation; distinct = (policy,direction,truncation,line ends) signatures"
 
 func init() {
